@@ -21,10 +21,10 @@ mod kx_limiter {
         TokenBucket { rate, capacity: cap as f64, tokens, refilled_at: any_time() }
     }
 
-    /// Whole seconds of *forward* clock progress; zero if the clock stalled or went backwards.
+    /// Whole seconds of *forward* clock progress; zero if the clock stalled or went backwards
+    /// (`LocalTime - LocalTime` saturates at zero).
     fn forward_secs(from: LocalTime, to: LocalTime) -> u64 {
-        let (a, b) = (from.as_millis(), to.as_millis());
-        if b >= a { (b - a) / 1000 } else { 0 }
+        (to - from).as_secs()
     }
 
     /// From the statement: a refill adds `rate` tokens per whole second elapsed, capped at capacity.
